@@ -56,7 +56,7 @@ def sweep(args):
             else:
                 body = B.ics("sweep-%d" % n, "Event %d" % n, comp="VTODO" if n % 3 == 0 else "VEVENT")
             r = s.req("PUT", base + nm, {"Content-Type": B.CT_VCF if card else B.CT_ICS}, body)
-            if dav.effective_status(r) not in (201, 204):
+            if dav.effective_status(r) not in (200, 201, 204):
                 vio("member-refused", "member %d of the sweep was refused (%s)" % (n, dav.effective_status(r)), {"n": n})
                 break
             members.append(nm)
